@@ -25,10 +25,18 @@ from pyvc.run import verify_module  # noqa: E402
 
 # the interpreter that has the repository's dependencies; overridable for environments where /venv is unusable
 VENV_PY = os.environ.get("VERIF_NATIVE_PY", "/venv/bin/python")
-if not os.path.exists(os.path.realpath(VENV_PY)) and os.path.exists("/opt/devshim/py312"):
-    # development sandbox only: the 3.12 interpreter behind /venv was lost; an equivalent 3.11-based runtime stands in.
-    # (recorded as native_python in the evidence; in an intact sandbox /venv/bin/python is used)
-    VENV_PY = "/opt/devshim/py312"
+if not os.path.exists(os.path.realpath(VENV_PY)):
+    # /venv/bin/python cannot run here (its 3.12 interpreter is missing): use the fallback runtime shipped in
+    # /verif/devshim (python3.11 + a pure-Python cachebox).  The evidence records which interpreter was used.
+    VENV_PY = os.path.join(HERE, "tools", "native_py.sh")
+
+
+_INTERNAL = re.compile(r"/(inv_init|inv_step|loopframe_init|loopframe_step|hint#|assert#|decreases#|pre@(fold_|lemma_|law_)[^/]*)")
+
+
+def is_proof_internal(v):
+    """obligations that belong to the proof (invariants, hints, ghost assertions, lemma preconditions) rather than to a contract clause"""
+    return bool(_INTERNAL.search(v["oid"])) or v.get("unit_kind") == "lemma"
 
 
 def sanitize(s):
@@ -59,12 +67,32 @@ def aggregate(results):
     return agg
 
 
+_replay_cache = {}
+
+
+def run_replay(pid, rp, repo, seed):
+    """native replay, once per verification unit and run (the drivers search per unit, not per clause)"""
+    try:
+        unit = json.load(open(rp)).get("unit")
+    except Exception:
+        unit = None
+    if unit is not None and unit in _replay_cache:
+        h = dict(_replay_cache[unit])
+        h["cached_from_unit"] = unit
+        return h
+    h = run_harness(pid, "replay", rp, repo, seed)
+    if unit is not None and h is not None:
+        _replay_cache[unit] = h
+    return h
+
+
 def run_harness(pid, mode, arg, repo, seed, timeout=600):
     h = os.path.join(HERE, "harness", f"{pid}.py")
     if not os.path.exists(h):
         return None
     if not os.path.exists(os.path.realpath(VENV_PY)):
         return {"rc": 127, "out": "", "err": f"{VENV_PY} is not runnable here: native replay / cross-check skipped"}
+    env_extra_path = ""
     env = dict(os.environ)
     env["VERIF_REPO"] = repo
     env["PYTHONPATH"] = repo + os.pathsep + HERE
@@ -155,6 +183,10 @@ def main():
     refuted = [v for v in proof_obls.values() if v["status"] == "refuted" and v["kind"] != "vacuity"]
     undecided = [v for v in proof_obls.values() if v["status"] == "undecided"]
     known_printed = []
+    internal_broken = []
+    # contract-level refutations of a unit whose own invariants broke are only trusted when they replay natively
+    broken_units = {v["unit"] for v in refuted if is_proof_internal(v)}
+    refuted.sort(key=lambda v: (not is_proof_internal(v), v["oid"]))
     for v in refuted:
         w = v["witness"]
         rp = os.path.join(HERE, "replay", pid, sanitize(v["oid"]) + ".json")
@@ -167,7 +199,7 @@ def main():
             "model": w["model"], "repo": repo, "native": None,
         }
         json.dump(payload, open(rp, "w"), indent=1, default=str)
-        h = run_harness(pid, "replay", rp, repo, seed)
+        h = run_replay(pid, rp, repo, seed)
         reproduced = bool(h and h["rc"] == 1)
         payload["native"] = h
         json.dump(payload, open(rp, "w"), indent=1, default=str)
@@ -176,6 +208,16 @@ def main():
             what = next(k["what"] for k in known["findings"] if k["property"] == pid and k["obligation"] == kf)
             lines.append(f"KNOWN-FINDING: property={pid} {kf}: {what}")
             known_printed.append(kf)
+            continue
+        if not reproduced and is_proof_internal(v):
+            # a loop invariant / hint / ghost assertion no longer holds and no failing input exists natively: the PROOF broke
+            # (e.g. the loop was restructured); the property itself is undecided, not violated
+            internal_broken.append(v)
+            lines.append(f"UNDECIDED property={pid} obligation={v['oid']} reason=proof-internal obligation refuted (invariant/hint no longer matches the code); no failing input found natively")
+            continue
+        if not reproduced and v["unit"] in broken_units:
+            internal_broken.append(v)
+            lines.append(f"UNDECIDED property={pid} obligation={v['oid']} reason=refuted, but the invariants of {v['unit']} no longer hold so the counter-model is not trusted; no failing input found natively")
             continue
         violations += 1
         lines.append(f"VIOLATION property={pid} replay={rp}" + ("" if reproduced else " no-failing-input-found"))
@@ -194,7 +236,7 @@ def main():
             "model": None, "repo": repo, "native": None, "in_baseline": v["oid"] in baseline.get(pid, []),
         }
         json.dump(payload, open(rp, "w"), indent=1, default=str)
-        h = run_harness(pid, "replay", rp, repo, seed)
+        h = run_replay(pid, rp, repo, seed)
         if h and h["rc"] == 1:
             payload = json.load(open(rp))
             payload["native"] = h
@@ -279,6 +321,8 @@ def main():
 
     if violations:
         exit_code = 1
+    elif internal_broken:
+        exit_code = 2
     elif checker_errors:
         exit_code = 3
     elif undecided or undec_units:
